@@ -161,12 +161,17 @@ def family_spectral(irf, p_shape, p_comp):
 def family_two_datasets(irf, p_ds, p_comp):
     comps = ["a", "b", "c"]
     order = perm_apply(comps, p_comp)
-    ds = [("d1", {"megacomplex": ["mc_par"]}), ("d2", {"megacomplex": ["mc_par", "mc_base"], "scale": "sc.d2"})]
+    # the second dataset declares the shared compartments in the opposite order, after one of its own: the linked
+    # (stacked) label order then differs from this dataset's order
+    rev = ["z"] + order[::-1]
+    ds = [("d1", {"megacomplex": ["mc_par"]}), ("d2", {"megacomplex": ["mc_rev", "mc_base"], "scale": "sc.d2"})]
     ds = perm_apply(ds, p_ds)
-    spec = {"megacomplex": {"mc_par": {"type": "decay-parallel", "compartments": order, "rates": [f"k.{c}" for c in order]}, "mc_base": {"type": "baseline", "dimension": "time"}},
+    spec = {"megacomplex": {"mc_par": {"type": "decay-parallel", "compartments": order, "rates": [f"k.{c}" for c in order]},
+                            "mc_rev": {"type": "decay-parallel", "compartments": rev, "rates": [f"k.{c}" for c in rev]},
+                            "mc_base": {"type": "baseline", "dimension": "time"}},
             "dataset": dict(ds), "dataset_groups": {"default": {"link_clp": True}},
             "clp_relations": [{"source": "a", "target": "c", "parameter": "rel", "interval": [(500, 600)]}]}
-    params = [["k.a", 1.4], ["k.b", 0.4], ["k.c", 0.05], ["sc.d2", 1.7], ["rel", 0.5, {"vary": False}]]
+    params = [["k.a", 1.4], ["k.b", 0.4], ["k.c", 0.05], ["k.z", 3.3], ["sc.d2", 1.7], ["rel", 0.5, {"vary": False}]]
     return spec, params
 
 
